@@ -551,7 +551,18 @@ def judge(ck, results, drv):
 
 def _judge_state(ck, case, verdict, out, read, foreign_ok, faulted):
     last = case["steps"][-1] if case["steps"] else None
-    if verdict == "WRONG":
+    if (verdict == "WRONG" and out == "ok" and last is not None
+            and last["g"].get("invalid") in ("meta-absent-node", "meta-absent-edge")):
+        # known finding: the call's metadata names a property the call does not supply; on a clean target validation
+        # rejects that; on a store object torn by an interrupted write (which the guard does not delete, overwrite=True
+        # or not) a left-over property array of that name, length and dtype satisfies the validator
+        ck.fail("C05:history-stale-property-adopted",
+                f"after the history [{describe(case)}] the last write — whose metadata names a property it does not supply — "
+                f"returns normally and the target reads as its nodes and edges with the property values of the earlier "
+                f"INTERRUPTED write: the left-overs of that write were not removed (check_for_geff does not take a torn store "
+                f"object for a geff) and satisfy validate_structure",
+                case, read, "ValueError and roll-back (as on a clean target), or the left-overs removed by overwrite=True")
+    elif verdict == "WRONG":
         ck.fail("C05:history-wrong-graph",
                 f"after the history [{describe(case)}] the target is accepted by validate_structure + read_to_memory but reads "
                 f"neither as the graph of the last write nor as the (recognised) graph it held before that write",
